@@ -74,23 +74,17 @@ var relNames = [8]string{"is empty (no instant at which all certificates are val
 var chainInKeys [3][8]string
 var typeKeys = map[x509.CertificateType]string{}
 
-// The shared windows of c11/pki put the end of W1 / the start of W2 30 s before the end of W0: "valid one second
-// before the certificate's expiry" is then indistinguishable from "valid 2..29 s before it". C12 is the only user
-// of the windows (C11 mints everything in window 0), so, until c11/pki carries such a boundary itself, this process
-// moves that shared boundary to 2 s before the end of W0: a parent in W2 is then valid at NotAfter-1 s of a W0
-// child and NOT valid (its window begins exactly then) at NotAfter-2 s, and a fortiori not earlier.
-func init() {
+// windowsSeparateExpiry: some window begins exactly 2 s before window 0 ends (c11/pki: W2). A parent in that window is
+// valid at NotAfter-1 s of a window-0 child and NOT valid (its window begins exactly then) at NotAfter-2 s nor earlier:
+// this is what separates "valid one second before the certificate's expiry" from every earlier instant.
+func windowsSeparateExpiry() bool {
 	want := pki.Windows[0].NotAfter.Add(-2 * time.Second)
 	for _, w := range pki.Windows {
-		if w.NotBefore.Equal(want) {
-			return // c11/pki already has the boundary
+		if w.NotBefore.Equal(want) && w.NotAfter.After(pki.Windows[0].NotAfter) {
+			return true
 		}
 	}
-	if !pki.Windows[1].NotAfter.Equal(pki.Windows[2].NotBefore) {
-		panic("c12: windows 1 and 2 of c11/pki no longer touch")
-	}
-	pki.Windows[1].NotAfter = want
-	pki.Windows[2].NotBefore = want
+	return false
 }
 
 func init() {
@@ -864,6 +858,9 @@ func graphState(c *ev.Ctx, u *pki.Universe, s *pki.Spec, bd bounds, h ev.Hist, o
 
 func main() {
 	ev.Main("C12", "model_checking", func(c *ev.Ctx) {
+		if !windowsSeparateExpiry() {
+			c.Broken("no validity window of c11/pki begins 2 s before window 0 ends: 'one second before expiry' would not be separated from earlier instants")
+		}
 		if c.Replay != nil {
 			var w witness
 			if err := json.Unmarshal(c.Replay, &w); err != nil || w.Spec == nil {
@@ -932,7 +929,6 @@ func main() {
 			"Parents and CertificateType follow reading R1 (code comment and DESIGN: second certificates of the valid-at-expiration chains if Expired, else of the current chains); the two looser readings of the field documentation only name the mismatch",
 			"OneCRL and CRLSet values are built directly as Go structs in the form Check consumes (IssuerLists keyed by hex SPKI hash as verifier.go passes it; BlockedSPKIs in hex and, thorough tier, in the base64 form google.Parse leaves them in); parsing of the wire formats is C15's subject",
 			"a CRLSet that names the key the certificate was issued under while Parents is empty: accepted either way when some walked chain (of any date class) has a second certificate with that key (the statement does not say which chains supply the parents for this purpose); must be 'not listed' when no walked chain has one (the certificate does not carry its issuer's key, so no reading lets the verifier find the listing); NameError must be nil when no name is given",
-		"the shared windows of c11/pki are adjusted in this process (the W1/W2 boundary is moved from 30 s to 2 s before the end of W0) so that 'one second before expiry' is separated from every earlier instant",
 			"fields the statement does not name (VerifyTime, ValidationError, ParentSPKI..., OCSP/CRL fields) are not judged; two observations about them are counted as info outcomes")
 
 		W := c.Workers()
